@@ -583,11 +583,13 @@ class ConformationContainer:
             other_atoms: Reference atoms
         """
         my_residue_labels = {a.residue_label for a in self.atoms}
-        res_names = {(a.chain_id, a.res_num): a.res_name for a in self.atoms}
+        res_names = {
+            (a.chain_id, a.res_num, a.icode): a.res_name for a in self.atoms}
         for atom in other_atoms:
             if atom.residue_label not in my_residue_labels:
-                if res_names.setdefault((atom.chain_id, atom.res_num),
-                                        atom.res_name) != atom.res_name:
+                if res_names.setdefault(
+                        (atom.chain_id, atom.res_num, atom.icode),
+                        atom.res_name) != atom.res_name:
                     # don't merge different residue types, e.g. alt-loc mutant
                     continue
                 self.copy_atom(atom)
